@@ -84,6 +84,7 @@ def run(ck, fb):
     r01c(ck, fb)
     r01d(ck, fb)
     r01e(ck, fb)
+    r01f(ck, fb)
 
 
 def writers(ck, fb):
@@ -438,3 +439,88 @@ def r01e(ck, fb):
         b = ck.body(fn, 'R01e')
         if b:
             ck.require(len(b.calls(rx)) >= 1, 'R01e', '%s:id-codec' % fn.split('::')[-2], b.where(), '%s no longer uses the 8 byte id codec' % fn)
+
+
+# persisted-state codecs (snapshot records, log records, catalogue): function -> (target type regex, fields that may be filled without the input,
+# one reason each). Any OTHER field of the built value that is not derived from the function's input is reported: it would be dropped /
+# defaulted by every snapshot, log entry or restart.
+CODEC_TABLE = [
+    ('rnacos::cache::model::CacheValue::to_do', r'DirectCacheItemDo$', {'timeout': 'filled by the caller from the cache entry'}),
+    ('rnacos::mcp::model::mcp::McpServer::from_do', r'mcp::McpServer$', {}),
+    ('rnacos::mcp::model::mcp::McpServer::to_do', r'McpServerDo$', {}),
+    ('rnacos::mcp::model::mcp::McpServerValue::from_do', r'mcp::McpServerValue$', {}),
+    ('rnacos::mcp::model::mcp::McpServerValue::to_do', r'McpServerValueDo$', {}),
+    ('rnacos::mcp::model::tools::McpTool::to_do', r'McpToolDo$', {}),
+    ('rnacos::mcp::model::tools::ToolSpec::to_do', r'McpToolSpecDo$', {}),
+    ('rnacos::mcp::model::tools::ToolSpecVersion::to_do', r'ToolSpecVersionDo$', {}),
+    ('rnacos::naming::model::Instance::from_do', r'naming::model::Instance$',
+     {'last_modified_millis': 'restart time', 'register_time': 'restart time', 'from_grpc': 'persistent instances are not connection bound',
+      'from_cluster': 'local', 'client_id': 'no connection'}),
+    ('rnacos::naming::model::Instance::to_do', r'InstanceDo$', {}),
+    ('rnacos::raft::filestore::model::LogRecordDto::to_record_do', r'log::LogRecord$', {}),
+    ('rnacos::raft::filestore::model::RaftIndexDto::to_record_do', r'log::RaftIndex$', {}),
+    ('rnacos::raft::filestore::model::SnapshotHeaderDto::to_record_do', r'log::SnapshotHeader$', {'extend': 'unused extension bytes'}),
+    ('rnacos::raft::filestore::model::SnapshotRecordDto::to_record_do', r'log::LogSnapshotItem$', {}),
+]
+CODEC_FROM = [  # (self type regex, from type regex, target adt regex, allowed)
+    (r'config::model::ConfigHistoryItemDO$', r'config::model::HistoryItem$', r'ConfigHistoryItemDO$', {}),
+    (r'config::model::HistoryItem$', r'ConfigHistoryItemDO$', r'config::model::HistoryItem$', {}),
+    (r'config::model::ConfigValueDO$', r'config::core::ConfigValue$', r'ConfigValueDO$', {}),
+    (r'config::core::ConfigValue$', r'ConfigValueDO$', r'config::core::ConfigValue$', {'tmp': 'a persisted value is never temporary'}),
+    (r'namespace::model::Namespace$', r'NamespaceDO$', r'namespace::model::Namespace$', {}),
+    (r'namespace::model::NamespaceDO$', r'namespace::model::Namespace$', r'NamespaceDO$', {}),
+    (r'raft::cache::model::CacheItemDo$', r'raft::cache::model::CacheValue$', r'CacheItemDo$', {'timeout': 'filled by the caller'}),
+    (r'filestore::model::LogRecordDto$', r'log::LogRecord', r'LogRecordDto$', {}),
+    (r'filestore::model::SnapshotHeaderDto$', r'log::SnapshotHeader', r'SnapshotHeaderDto$', {}),
+    (r'filestore::model::SnapshotRecordDto$', r'log::LogSnapshotItem', r'SnapshotRecordDto$', {}),
+    (r'filestore::model::RaftIndexDto$', r'log::RaftIndex', r'RaftIndexDto$', {}),
+    (r'user::model::UserDto$', r'user::model::UserDo$', r'UserDto$', {'password': 'never exposed'}),
+    (r'mcp::model::tools::ToolSpec$', r'McpToolSpecDo', r'ToolSpecVersion$', {'ref_count': 'recomputed'}),
+    (r'mcp::model::tools::McpSimpleTool$', r'McpToolDo', r'McpSimpleTool$', {}),
+]
+
+
+def _codec_row(ck, fb, b, adt_rx, allowed, key):
+    best = None
+    for x in fb.tree(b.name):
+        for (i, j, st) in x.aggregates(adt_rx):
+            rv = st['rv']
+            if best is None or len(rv['fields']) > len(best[1]['fields']):
+                best = (x, rv, i)
+    if best is None:
+        ck.bad('R01f', key + ':value', b.where(), 'codec %s no longer builds a %s value' % (b.name, adt_rx))
+        return
+    x, rv, i = best
+    t = Taint(x, local_src=list(range(1, x.argc + 1)), mut_args=True)
+    lost = [f for f, o in zip(rv['fields'], rv['ops']) if not t.op_tainted(o) and f not in allowed]
+    # node_addrs style fields filled by a loop: must still be written from the input somewhere in the function
+    for f in list(allowed):
+        if 'loop' in allowed[f] or 'repeated' in allowed[f]:
+            src = any(f in util.assigned_fields(y) or any(f in [e for e in util.recv_fields(y, s)] for s in y.calls(r'::(insert|push)$')) for y in fb.tree(b.name))
+            if not src:
+                lost.append(f)
+    ck.require(not lost, 'R01f', key, x.where(i),
+               'codec %s fills %s of the persisted value without using its input: the field is dropped / reset by every snapshot, log entry or restart' % (b.name, lost),
+               '%d fields carried' % (len(rv['fields']) - len([f for f in rv['fields'] if f in allowed])))
+
+
+def r01f(ck, fb):
+    ck.rule('R01f', 'persisted-value codecs carry every field: in each encoder/decoder on the snapshot / log / catalogue path every field of the value '
+                    'it builds is derived from the function input, except a frozen list of fields with a stated reason')
+    n = 0
+    for (fn, adt_rx, allowed) in CODEC_TABLE:
+        if not fb.has(fn):
+            ck.bad('R01f', 'anchor:' + fn, '-', 'codec function %s not found' % fn)
+            continue
+        n += 1
+        ck.analysed(fn)
+        _codec_row(ck, fb, fb.get(fn), adt_rx, allowed, fn.split('::')[-2] + '::' + fn.split('::')[-1])
+    for (self_rx, from_rx, adt_rx, allowed) in CODEC_FROM:
+        bs = [b for b in fb.impls(r'^std::convert::From$', self_rx, from_rx, 'from') if not b.parent]
+        if len(bs) != 1:
+            ck.bad('R01f', 'anchor:From<%s> for %s' % (from_rx, self_rx), '-', 'codec impl not found (%d candidates)' % len(bs))
+            continue
+        n += 1
+        ck.analysed(bs[0])
+        _codec_row(ck, fb, bs[0], adt_rx, allowed, 'From<%s>for%s' % (from_rx.strip('$').split('::')[-1], self_rx.strip('$').split('::')[-1]))
+    ck.floor('R01f', 'codec functions', n, 26)
